@@ -28,6 +28,7 @@ struct ToolPlan {
 	int occ = 0;   // n-th spawn of that kind in this run
 	int mode = 0;
 	int param = 0;
+	int code = 0;  // 0: default (exit 1 / SIGSEGV+core); else exit code, or wait status word for the signal mode
 };
 
 struct Fault {
